@@ -8,29 +8,33 @@
     and trial counts of any size; [Factor.test_trial] / [_trial_arguments] are
     shown to compute the factor-correctness clause of [Sem.factor_ok] (each
     derived cell is a level whose table accepts the window cells, for windows
-    of any width, stride and start).  [C17_mismatch_iff_valid_derived] assembles
-    them for the fragment [dfrag] of flat records (boolean predicate; designs
-    WITH WithinTrial / Transition / Window factors), [C17_mismatch_iff_valid]
-    for its sub-fragment [nfrag] without derived factors, and
+    of any width, stride and start).  [C17_mismatch_iff_valid_excluded] assembles
+    them for the fragment [efrag] of flat records (boolean predicate; designs
+    WITH WithinTrial / Transition / Window factors and Exclude constraints on
+    crossed levels), [C17_mismatch_iff_valid_derived] for its sub-fragment
+    [dfrag] without exclusions of crossed levels, [C17_mismatch_iff_valid]
+    for the sub-fragment [nfrag] without derived factors, and
     [C17_mismatch_iff_valid_partial] for any design given the correspondence of
     each component.
 
     Full statement (not proved in general; kept for reference):
       forall fb s, accepted fb -> in_domain fb s ->
         (no_mismatch fb s = true <-> Sem.valid_b (code_sem fb) (tseq_of s) = true)
-    Missing outside [dfrag]: derived factors that read a factor absent in some
+    Missing outside [efrag]: derived factors that read a factor absent in some
     trial (a Transition of a Transition: the real predicate is then called on
     [''], outside the flat tables), LatinSquare, ExactlyKMultipleInARow (no
-    documented meaning), and crossings in which some combination of crossed
-    levels is not admitted with its full weight - exclusions of crossed levels
-    and combinations made impossible by a derivation (where the crossing clause
-    alone is refuted, [C17_crossing_clause_refuted], and the equivalence holds
-    only through the Exclude / derived-factor checks).  On the current /repo the
+    documented meaning), and crossings whose size is not the total weight of
+    the combinations free of excluded levels - combinations made impossible by
+    a derivation, or excluded through a derived level that is not itself
+    crossed (there the crossing clause alone is refuted,
+    [C17_crossing_clause_refuted], and the equivalence would go through the
+    derived-factor checks; for Exclude of crossed levels it goes through the
+    Exclude check and is proved, [C17_crossing_excluded]).  On the current /repo the
     full statement is moreover false for designs with a weight-desugared hidden
     factor (KeyError: the user-visible sample has no key for the hidden factor)
     - see the search of harness/props/c17.py. *)
 From Coq Require Import ZArith List Bool Arith Lia.
-From SP Require Import Design.Flat Design.Layout Check.Mismatch Check.MismatchProofs Check.CrossingProofs Check.FragmentProofs Check.NestProofs Check.DerivedFrag Check.DerivedProofs.
+From SP Require Import Design.Flat Design.Layout Check.Mismatch Check.MismatchProofs Check.CrossingProofs Check.FragmentProofs Check.NestProofs Check.DerivedFrag Check.DerivedProofs Check.ExcludedProofs.
 From SP Require Design.Sem.
 Import ListNotations.
 
@@ -220,9 +224,10 @@ Proof. vm_compute. repeat split. Qed.
     window cells" ([gs_cell]: [Sem.accepts] on [Sem.window_args]; no error: the
     predicate is only called on argument tuples of [get_dependent_cross_product]).
     Any window width / stride / start, any sustain count; arguments before the
-    first trial are [BeforeStart] on both sides. *)
+    first trial are [BeforeStart] on both sides.  [dbase] is the part of [dfrag]
+    (and of [efrag]) about factors and sustain counts. *)
 Theorem C17_derived_cell : forall fb rows f fd q,
-  dfrag fb = true -> wf_rows_d fb rows -> nth_error (fl_design fb) f = Some fd ->
+  dbase fb = true -> wf_rows_d fb rows -> nth_error (fl_design fb) f = Some fd ->
   q * su_of fb f < fl_trials fb ->
   test_trial fb (cand_of_rows rows) f fd (q * su_of fb f) (su_of fb f)
   = Ok (gs_cell fb rows f fd (q * su_of fb f)).
@@ -230,7 +235,7 @@ Proof. exact test_trial_d. Qed.
 Print Assumptions C17_derived_cell.
 
 (** [sample_mismatch_factors] flags exactly the factors with a group start whose cell its table rejects. *)
-Theorem C17_factors_derived : forall fb rows, dfrag fb = true -> wf_rows_d fb rows ->
+Theorem C17_factors_derived : forall fb rows, dbase fb = true -> wf_rows_d fb rows ->
   mismatch_factors fb (cand_of_rows rows)
   = Ok (flagged (map (fun p => gs_ok fb rows (fst p) (snd p)) (combine (seq 0 (length (fl_design fb))) (fl_design fb)))).
 Proof. exact mismatch_factors_d. Qed.
@@ -239,14 +244,14 @@ Print Assumptions C17_factors_derived.
 (** The factor clause of the reference semantics (applicability V2, derived levels V3, sustain V4) on a
     candidate of the domain is: cells constant on trial groups, and every group start accepted. *)
 Theorem C17_factor_clause : forall fb rows f fd,
-  dfrag fb = true -> wf_rows_d fb rows -> nth_error (fl_design fb) f = Some fd ->
+  dbase fb = true -> wf_rows_d fb rows -> nth_error (fl_design fb) f = Some fd ->
   (Sem.factor_ok (code_sem_d fb) rows f (dfactor_of fb (f, fd)) = true
    <-> V4f fb rows f /\ gs_ok fb rows f fd = true).
 Proof. exact factor_ok_d. Qed.
 Print Assumptions C17_factor_clause.
 
 (** [Sustain.potential_sample_conforms] with factors that do not apply in every trial. *)
-Theorem C17_sustain_derived : forall fb rows, dfrag fb = true -> wf_rows_d fb rows ->
+Theorem C17_sustain_derived : forall fb rows, dbase fb = true -> wf_rows_d fb rows ->
   exists b, sustain_conforms fb (cand_of_rows rows) = Ok b /\ (b = true <-> V4 fb rows).
 Proof. exact sustain_conforms_V4_d. Qed.
 Print Assumptions C17_sustain_derived.
@@ -303,4 +308,54 @@ Example C17_example_derived :
   wf_rowsb_d exd_fb exd_rows_bad_crossing = true /\
   mismatch exd_fb (cand_of_rows exd_rows_bad_crossing) = VLists [] [] [0] /\
   Sem.valid_b (code_sem_d exd_fb) exd_rows_bad_crossing = false.
+Proof. vm_compute. repeat split. Qed.
+
+(** * Exclusions of crossed levels (fragment [efrag], Check/DerivedFrag.v)
+
+    One crossing whose admitted combinations are those free of excluded levels: the
+    chunk loop never raises, and ONCE NO EXCLUDED LEVEL OCCURS IN A ROW (what the
+    Exclude checks decide on both sides) it flags the crossing iff the reference
+    clause fails (every admitted combination with its multiplicity per full chunk, at
+    most that in the trailing partial chunk, no other combination). *)
+Theorem C17_crossing_excluded : forall fb rows p S, no_hidden fb -> xfrag_x fb p = true -> wf_rows_d fb rows ->
+  Sem.s_trials S = fl_trials fb ->
+  exists xs, crossing_mismatch fb (cand_of_rows rows) (fst p) (snd p) = Ok xs /\
+             (NoExcl fb rows -> (xs = [] <-> Sem.crossing_ok S rows (crossing_sem_x fb p) = true)).
+Proof. exact frag_crossing_x. Qed.
+Print Assumptions C17_crossing_excluded.
+
+(** The whole checker on the fragment [efrag]: [dfrag] plus Exclude constraints on levels
+    of crossed factors (basic or derived), the crossing size of the record being the total
+    weight of the remaining combinations.  [code_sem_x fb] lists exactly these as the
+    admitted combinations of each crossing. *)
+Theorem C17_mismatch_iff_valid_excluded : forall fb rows,
+  efrag fb = true -> wf_rowsb_d fb rows = true ->
+  (no_mismatch fb (cand_of_rows rows) = true <-> Sem.valid_b (code_sem_x fb) rows = true).
+Proof. exact efrag_mismatch_iff_valid_b. Qed.
+Print Assumptions C17_mismatch_iff_valid_excluded.
+
+(** [efrag] contains [dfrag], where the reference design is the old one. *)
+Theorem C17_dfrag_efrag : forall fb, dfrag fb = true -> efrag fb = true.
+Proof. exact dfrag_efrag. Qed.
+Print Assumptions C17_dfrag_efrag.
+Theorem C17_dfrag_code_sem_x : forall fb, dfrag fb = true -> code_sem_x fb = code_sem_d fb.
+Proof. exact dfrag_code_sem_x. Qed.
+Print Assumptions C17_dfrag_code_sem_x.
+
+(** The hypotheses are satisfiable beyond [dfrag]: the flat record of the real block
+    CrossBlock([f(a, b:2, c), g(x, y)], [f, g], [Exclude(f, c)], require_complete_crossing=False)
+    (6 trials): a valid sequence is accepted; with the excluded (c, y) in the place of (a, y) the
+    crossing check is silent and the Exclude check flags; an unbalanced crossing is flagged. *)
+Example C17_example_excluded_fragment : dfrag exx_fb = false /\ efrag exx_fb = true.
+Proof. vm_compute. auto. Qed.
+Example C17_example_excluded :
+  wf_rowsb_d exx_fb exx_rows_valid = true /\
+  mismatch exx_fb (cand_of_rows exx_rows_valid) = VLists [] [] [] /\
+  Sem.valid_b (code_sem_x exx_fb) exx_rows_valid = true /\
+  wf_rowsb_d exx_fb exx_rows_excluded = true /\
+  mismatch exx_fb (cand_of_rows exx_rows_excluded) = VLists [] [2] [] /\
+  Sem.valid_b (code_sem_x exx_fb) exx_rows_excluded = false /\
+  wf_rowsb_d exx_fb exx_rows_unbalanced = true /\
+  mismatch exx_fb (cand_of_rows exx_rows_unbalanced) = VLists [] [] [0] /\
+  Sem.valid_b (code_sem_x exx_fb) exx_rows_unbalanced = false.
 Proof. vm_compute. repeat split. Qed.
